@@ -954,6 +954,54 @@ def check_filters(acc: core.Acc, w: int, h: int) -> None:
                 acc.fail('read_error', case, f'{w}x{h} pyramid generated with {mode.name}: save/read raised {type(exc).__name__}: {exc}', exc=type(exc).__name__)
 
 
+def check_clear_levels(acc: core.Acc, w: int, h: int) -> None:
+    """Frame.clear() on every subset of the levels below the top one of a stored pyramid: on save / compute_mipmaps each cleared
+    level is regenerated from the level above it (documented on Frame.clear), the others keep their own content."""
+    base = bytes(((x * 29 + y * 83 + c * 47) % 253) for y in range(h) for x in range(w) for c in range(4))
+    probe = VTF(w, h, fmt=ImageFormats.RGBA8888, thumb_fmt=ImageFormats.NONE)
+    nlev = probe.mipmap_count
+    for mask in range(1, 1 << (nlev - 1)):
+        for via in ('compute', 'save'):
+            acc.evaluations += 1
+            acc.nontrivial += 1
+            case = {'clear_levels': mask, 'w': w, 'h': h, 'via': via}
+            try:
+                vtf = VTF(w, h, fmt=ImageFormats.RGBA8888, thumb_fmt=ImageFormats.NONE)
+                custom = {}
+                for m in range(nlev):
+                    fr = vtf.get(mipmap=m)
+                    data = base[:fr.width * fr.height * 4] if m == 0 else bytes((b + 40 * m) % 256 if i % 4 != 3 else 255 for i, b in enumerate(base[:fr.width * fr.height * 4]))
+                    fr.copy_from(data, ImageFormats.RGBA8888)
+                    custom[m] = data
+                cleared = [m for m in range(1, nlev) if mask >> (m - 1) & 1]
+                for m in cleared:
+                    vtf.get(mipmap=m).clear()
+                if via == 'compute':
+                    vtf.compute_mipmaps()
+                    got = {m: (vtf.get(mipmap=m).width, vtf.get(mipmap=m).height, frame_bytes(vtf.get(mipmap=m))) for m in range(nlev)}
+                else:
+                    buf = io.BytesIO()
+                    vtf.save(buf)
+                    rd = VTF.read(io.BytesIO(buf.getvalue()))
+                    got = {m: (rd.get(mipmap=m).width, rd.get(mipmap=m).height, frame_bytes(rd.get(mipmap=m))) for m in range(min(nlev, rd.mipmap_count))}
+            except Exception as exc:  # noqa: BLE001
+                acc.fail('regen_error', case, f'{w}x{h} levels {cleared} cleared, {via}: raised {type(exc).__name__}: {exc}', exc=type(exc).__name__)
+                continue
+            for m in sorted(got):
+                cw, ch, px = got[m]
+                if m not in cleared:
+                    if px != custom[m]:
+                        acc.fail('regen_kept_level', case, f'{w}x{h} levels {cleared} cleared, {via}: untouched level {m} no longer holds its own content', fmt='RGBA8888')
+                        break
+                elif m - 1 in got:
+                    pw, ph, pp = got[m - 1]
+                    msg = check_mip_mean(pp, pw, ph, px, cw, ch)
+                    if msg:
+                        acc.fail('mip_mean', case, f'{w}x{h} levels {cleared} cleared, {via}: level {m} is not regenerated from level {m - 1}: {msg}',
+                                 src='clear', shape=shape_of(w, h))
+                        break
+
+
 def check_fill(acc: core.Acc) -> None:
     """Frame.fill: frames filled with the same colour and size are independent of each other and of later fills."""
     acc.evaluations += 1
@@ -996,6 +1044,8 @@ def shard(cases: list) -> core.Acc:
             check_filters(acc, *m['filter_size'])
         elif 'fill' in m:
             check_fill(acc)
+        elif 'clear_size' in m:
+            check_clear_levels(acc, *m['clear_size'])
         else:
             check_case(acc, m)
     return acc
@@ -1012,6 +1062,7 @@ def run(ctx: core.Ctx) -> None:
     for i in range(6):
         ctx.acc.sample(shards[(i * 7) % len(shards)][-1])
     shards.append([{'filter_size': list(sz)} for sz in FILTER_SIZES] + [{'fill': True}])
+    shards.append([{'clear_size': [16, 16]}, {'clear_size': [32, 8]}, {'clear_size': [4, 4]}])
     core.par_map(shard, shards, ctx.acc)
     for fam, n in sorted(counts.items()):
         ctx.acc.count('cases_' + fam, n)
@@ -1020,7 +1071,7 @@ def run(ctx: core.Ctx) -> None:
         f'configurations = records over {len(BASE)} dimensions (w, h in {SIZES}; frames; depth; cubemap; version 7.2-7.5; '
         f'{len(WRITABLE)} writable main formats; NONE + {len(WRITABLE)} thumbnail formats; {len(RES)} resource sets; {len(SHEETS)} sheet sets x '
         f'sheet version 0/1; each of the 31 non-ENVMAP flag bits; mips generated/explicit; pixel phase; reflectivity; bump scale; '
-        f'first frame; save(version=) override; clear_mipmaps(after)+compute_mipmaps on the re-read file); compute_mipmaps(filter) for every FilterMode on 8 sizes against the documented corner / mean rule; Frame.fill independence.  Enumerated: every record deviating from the base '
+        f'first frame; save(version=) override; clear_mipmaps(after)+compute_mipmaps on the re-read file); compute_mipmaps(filter) for every FilterMode on 8 sizes against the documented corner / mean rule; Frame.fill independence; every subset of the lower levels of a stored pyramid cleared with Frame.clear() then regenerated by compute_mipmaps() / save().  Enumerated: every record deviating from the base '
         f'(4x4, 1 frame, RGBA8888, no thumbnail, 7.5) in <= {d} dimensions, each to every alternative value, and in <= {d + 2} dimensions '
         f'over a reduced menu of boundary values ({sum(len(v) for v in ALTS_DEEP.values())} values in {len(ALTS_DEEP)} dimensions)'
         + ('' if ctx.quick else f', and in <= 4 dimensions over a medium menu ({sum(len(v) for v in ALTS_MID.values())} values in {len(ALTS_MID)} dimensions)') +
@@ -1046,5 +1097,8 @@ def replay(case: dict) -> list:
     if 'fill' in case:
         check_fill(acc)
         return acc.all_failures()
+    if 'clear_levels' in case:
+        check_clear_levels(acc, case['w'], case['h'])
+        return [f for f in acc.all_failures() if f.case.get('clear_levels') == case['clear_levels'] and f.case.get('via') == case['via']]
     check_case(acc, case)
     return acc.all_failures()
